@@ -160,6 +160,23 @@ def macro_shard(task):
             e = f"{lit(x)} in {lit(l)}"
             judge(part, rk, "in", f"list:{family}", e, celrun.evaluate(rk, e), x in l)
             n += 2
+    if family == "int":
+        # nested macros whose inner body mentions the OUTER variable (each outer element must see its own value)
+        outers = [l for l in lists_over([0, 1, 2], 3)]
+        inners = [[1], [1, 2], [2, 0]]
+        for l in outers:
+            for m in inners:
+                cases = [
+                    (f"{lit(l)}.map(x, {lit(m)}.map(y, x + y))", [[x + y for y in m] for x in l]),
+                    (f"{lit(l)}.filter(x, {lit(m)}.exists(y, y == x))", [x for x in l if any(y == x for y in m)]),
+                    (f"{lit(l)}.map(x, {lit(m)}.filter(y, y > x))", [[y for y in m if y > x] for x in l]),
+                    (f"{lit(l)}.all(x, {lit(m)}.all(y, y >= x))", all(all(y >= x for y in m) for x in l)),
+                    (f"{lit(l)}.exists_one(x, {lit(m)}.exists_one(y, y == x))", sum(1 for x in l if sum(1 for y in m if y == x) == 1) == 1),
+                    (f"{lit(l)}.map(x, {lit(m)}.map(x, x + 1))", [[y + 1 for y in m] for _x in l]),
+                ]
+                for e, exp in cases:
+                    judge(part, rk, "macro", "nested:" + e.split(".")[1].split("(")[0] + ">" + e.split(".")[2].split("(")[0], e, celrun.evaluate(rk, e), exp)
+                    n += 1
     part.space(f"macros:{family}:{rk}", n, n, bound=f"lists of length <= {maxlen}")
     return part
 
